@@ -29,6 +29,16 @@ pub fn judge(_w: &Worker, scen: &Scenario, ex: &Exec) -> Judgement {
     simple_judge(v, ex, exit0(ex))
 }
 
+/// under an injected failure a non-zero exit is fine; exit 0 still promises a successful flush of every file
+pub fn judge_faulted(_w: &Worker, scen: &Scenario, ex: &Exec) -> Judgement {
+    let exp = model::expect(scen);
+    let mut v = vec![];
+    if exit0(ex) {
+        v.extend(monitor::fsync_after_last_write(&ex.res, &copied_files(&exp)));
+    }
+    simple_judge(v, ex, ex.res.fault_hits.iter().any(|&h| h > 0))
+}
+
 fn extra_scenarios() -> Vec<(Scenario, Vec<Fault>)> {
     let mut out = vec![];
     for d in drivers() {
@@ -91,6 +101,40 @@ pub fn run(ctx: &Ctx) -> Report {
     }
     let st = explore(&ctx.pool, jobs, j);
     rep.part("--fsync x {--no-perms, --no-timestamps, --ownership} product", st, serde_json::json!({"d": 1}));
+    // one refused fsync: exit 0 still means that every file was flushed (a refused flush is not a flush), in
+    // particular the files after the one that was refused
+    {
+        let jf: Judge = &judge_faulted;
+        let w = Worker::new(142, &ctx.pool.bins);
+        let mut jobs = vec![];
+        let mut nsites = 0;
+        for d in drivers() {
+            for wn in ["1", "2"] {
+                let tree = vec![Entry::dir("src"), Entry::file("src/a", "123456789"), Entry::file("src/b", "x"), Entry::file("src/c", ""), Entry::dir("src/d"), Entry::file("src/d/e", "abcdefghijk")];
+                let s = Scenario::new(&format!("fsync-refused-{}-w{}", d, wn), tree, &["--fsync", "-r", "--driver", d, "-w", wn, "--block-size", "4", "src", "dst"]);
+                let sa = Arc::new(s.clone());
+                for base in base_specs() {
+                    let rec = match w.run(&s, &base) {
+                        Ok(r) => r,
+                        Err(e) => {
+                            rep.machinery_errors.push(format!("recording run of {}: {}", s.name, e));
+                            continue;
+                        }
+                    };
+                    for site in crate::explore::sites(&rec, &|e| e.name == "fsync" || e.name == "fdatasync") {
+                        nsites += 1;
+                        for en in [libc::EIO, libc::EINVAL, libc::ENOSYS, libc::EROFS, libc::ENOSPC] {
+                            let mut sp = base.clone();
+                            sp.faults.push(crate::explore::fault_at(&site, Action::Errno(en)));
+                            jobs.push((sa.clone(), sp, 0usize));
+                        }
+                    }
+                }
+            }
+        }
+        let st = explore(&ctx.pool, jobs, jf);
+        rep.part("one refused fsync (EIO, EINVAL, ENOSYS, EROFS, ENOSPC) at each fsync call of a five-file copy", st, serde_json::json!({"sites": nsites}));
+    }
     rep.assumptions = vec![
         "fsync/fdatasync calls are recorded by the supervisor and answered 0 without reaching the disk (durability itself is the kernel's business)".into(),
         "pre-emption only at visible system calls and hook markers".into(),
